@@ -1,5 +1,7 @@
 import OnlVerif.Lemmas.VCKFinal
 import OnlVerif.Lemmas.VCKGridEx
+import OnlVerif.Lemmas.WFQKFinal
+import OnlVerif.Lemmas.WFQKGridEx
 import OnlVerif.Props.C12
 import OnlVerif.Props.C14
 /-!
@@ -28,6 +30,10 @@ part of the proved invariant.
 -/
 
 namespace C14K
+
+/-! ## VirtualClock -/
+
+section VC
 open VCOnK VCK Stamp
 
 
@@ -413,5 +419,406 @@ example : (orun (flowOf [0, 0, 1]) unit vcfg oInit
     (orun (flowOf [0, 0, 1]) unit vcfg oInit [.get 0, .put 0 0, .stamp 1, .serve 0 1]).isNone = true ∧
     (orun (flowOf [0, 0, 1]) unit vcfg oInit [.get 0, .put 0 0, .stamp 1, .serve 0 0, .out 0 2]).isNone = true := by
   decide +kernel
+
+end VC
+
+/-! ## WFQ
+
+`OnlVerif/Net/WFQOnK.lean` writes `WFQ.put` (with `update_vtime` / `reset_vtime`), `Scheduler.send_packet`, `WFQ.run` (with its
+bookkeeping after each transmission: `update_vtime()`, `class_count[c] -= 1`, `active_set.remove`, `reset_vtime()` when the
+active set is empty, `last_time = env.now`) and a packet source as one program of the kernel model.  Scope: one `WFQ` over the
+classes `0 … F-1`, each with a positive **whole** weight (`WFQK.CfgOK`; the constructor's annotation is `Dict[FlowId, int]`),
+`flow2class` the identity, `rate > 0`; one source with non-negative gaps whose packets carry increasing ids in `0 … N-1`
+(`WFQK.WorkOK`); exact rational time.  The `PriorityStore` key is carried as for VC; here two grids are needed
+(`WFQK.GridOK`): instants (arrivals, departures) lie on `ℤ/d1`, virtual time and finish times on `ℤ/scale` with
+`scale = d1·L`, where every possible weight sum divides `L` (so that `Δt / Σw` and `8·size/(rate·w)` stay on the grid) — met by
+`d1 := WFQK.d1Of size cfg arrivals`, `L := (Σ weights)!` for every configuration and workload (`wfq_grid_exists`).  That virtual
+time, finish times and all instants stay on their grids is part of the proved invariant, as is the *ghost read* of `last_time`
+by which `run` learns the clock (`env.now = last_time` whenever `run` resumes from `store.get()`), and that no `KeyError` /
+`ZeroDivisionError` of the dict and set operations can occur.
+-/
+
+section WFQ
+open WFQOnK WFQK Stamp
+
+/-- **Every WFQ configuration and every finite rational workload lies on the grids** (`GridOK` is satisfiable for all inputs). -/
+theorem wfq_grid_exists (size : Int → Nat) (F : Nat) (cfg : WfqCfg ℚ) (arrivals : List (ℚ × Int)) :
+    WFQK.GridOK (d1Of size cfg arrivals * LOf F cfg) size F cfg (d1Of size cfg arrivals) (LOf F cfg) arrivals :=
+  gridOK_of size F cfg arrivals
+
+/-- **Refinement, step by step** (WFQ): every kernel step of every reachable state is a normal one (`.ok`), and is a (possibly
+empty) sequence of actions the StampServer LTS with the WFQ record accepts from the abstraction of the state before to the
+abstraction of the state after (it commutes with the executable `absWFQ`), in which the packets accepted / sent out are the
+`put` / `out` observations the step appended to the trace. -/
+theorem wfq_on_kernel_step_refines (N scale F : Nat) (flow size : Int → Nat) (cfg : WfqCfg ℚ) (d1 L : Nat)
+    (arrivals : List (ℚ × Int)) (hc : WFQK.CfgOK F cfg) (hg : WFQK.GridOK scale size F cfg d1 L arrivals)
+    (hw : WFQK.WorkOK N size F flow cfg d1 arrivals) (fuel : Nat) (s s' : KState ℚ (WfqKSt ℚ))
+    (hreach : KReach (prog F flow size cfg N scale) (fuel + 1) (initState F arrivals) s)
+    (hstep : (step (prog F flow size cfg N scale) (fuel + 1) s).state? = some s') :
+    step (prog F flow size cfg N scale) (fuel + 1) s = .ok s' ∧
+    ∃ new acts, histOf s'.trace = histOf s.trace ++ new ∧
+      runActs (WFQ.sched cfg) (absWFQ F flow size cfg N s) acts =
+        .ok (absWFQ F flow size cfg N s', WFQK.putPk size flow new, WFQK.outPk size flow new) := by
+  obtain ⟨a, _, hi, _⟩ := WFQK.reach_lts (size := size) fuel hc hg hw hreach
+  cases hp : popMin s.agenda with
+  | none => simp [_root_.step, hp, StepResult.state?] at hstep
+  | some qr =>
+    obtain ⟨q, rest⟩ := qr
+    obtain ⟨s'', a', new, h1, h2, -, -, -, h6, acts, h7⟩ := WFQK.inv_step_lts (size := size) fuel hi hp
+    rw [h1] at hstep
+    simp only [StepResult.state?, Option.some.injEq] at hstep
+    subst hstep
+    exact ⟨h1, new, acts, h6, by rw [absWFQ_eq hi.k hi.ai hi.l, absWFQ_eq h2.k h2.ai h2.l]; exact h7⟩
+
+/-- **Refinement, whole runs** (WFQ): every state reachable by kernel steps is the image under `absWFQ` of an admissible run of
+the LTS from the state of a fresh `WFQ` (`WFQ.start 0`), with the `put` / `out` observations as the packets that entered /
+left — the hypothesis of the C12 / C14 theorems. -/
+theorem wfq_on_kernel_refines_lts (N scale F : Nat) (flow size : Int → Nat) (cfg : WfqCfg ℚ) (d1 L : Nat)
+    (arrivals : List (ℚ × Int)) (hc : WFQK.CfgOK F cfg) (hg : WFQK.GridOK scale size F cfg d1 L arrivals)
+    (hw : WFQK.WorkOK N size F flow cfg d1 arrivals) (fuel : Nat) (s : KState ℚ (WfqKSt ℚ))
+    (hreach : KReach (prog F flow size cfg N scale) (fuel + 1) (initState F arrivals) s) :
+    ∃ acts, runActs (WFQ.sched cfg) (WFQ.start 0) acts =
+      .ok (absWFQ F flow size cfg N s, WFQK.putPk size flow (histOf s.trace), WFQK.outPk size flow (histOf s.trace)) := by
+  obtain ⟨a, acts, hi, hrun⟩ := WFQK.reach_lts (size := size) fuel hc hg hw hreach
+  exact ⟨acts, by rw [absWFQ_eq hi.k hi.ai hi.l]; exact hrun⟩
+
+/-- **No kernel step ever crashes, and `run()` returns** (WFQ): every reachable state is followed by a normal step or has an
+empty agenda — so neither the `KeyError`s of `finish_times[c]`, `class_count[c] -= 1`, `active_set.remove(c)`, `weights[c]`, nor
+the `ZeroDivisionError` of `update_vtime` on an empty active set or of a zero `rate·weight`, nor a `TypeError`, nor any exception
+of the kernel ever leaves `step()` —, and `run()` returns (agenda empty) within `6·n + 4` kernel steps. -/
+theorem wfq_on_kernel_run_returns (N scale F : Nat) (flow size : Int → Nat) (cfg : WfqCfg ℚ) (d1 L : Nat)
+    (arrivals : List (ℚ × Int)) (hc : WFQK.CfgOK F cfg) (hg : WFQK.GridOK scale size F cfg d1 L arrivals)
+    (hw : WFQK.WorkOK N size F flow cfg d1 arrivals) (fuel n : Nat) (hn : 6 * arrivals.length + 4 ≤ n) :
+    (∀ s, KReach (prog F flow size cfg N scale) (fuel + 1) (initState F arrivals) s →
+      (∃ s', step (prog F flow size cfg N scale) (fuel + 1) s = .ok s') ∨
+        step (prog F flow size cfg N scale) (fuel + 1) s = .empty) ∧
+    ∃ sF, runAll (prog F flow size cfg N scale) (fuel + 1) n (initState F arrivals) = .returned .none sF ∧
+      sF.agenda = [] ∧ KReach (prog F flow size cfg N scale) (fuel + 1) (initState F arrivals) sF := by
+  constructor
+  · intro s hs
+    obtain ⟨a, _, hi, _⟩ := WFQK.reach_lts (size := size) fuel hc hg hw hs
+    cases hp : popMin s.agenda with
+    | none => right; simp [_root_.step, hp]
+    | some qr =>
+      obtain ⟨q, rest⟩ := qr
+      obtain ⟨s', _, _, h1, _⟩ := WFQK.inv_step_lts (size := size) fuel hi hp
+      exact Or.inl ⟨s', h1⟩
+  · have h0 := WFQK.inv_init (N := N) (flow := flow) hc hg hw
+    obtain ⟨sF, aF, h1, -, h3, h4⟩ := WFQK.run_returns (size := size) fuel (initState F arrivals) n _ _ h0
+      (by rw [WFQK.a0_mu]; omega) KReach.init
+    exact ⟨sF, h1, h3, h4⟩
+
+/-- positive rate and weights: the hypothesis of the C12 / C14 theorems of the LTS -/
+theorem wfq_pos_of_cfgOK {F : Nat} {cfg : WfqCfg ℚ} (hc : WFQK.CfgOK F cfg) : WFQ.Pos cfg := by
+  refine ⟨hc.rate, ?_⟩
+  intro k v hk
+  have hkF : k < F := hc.keys _ (WFQK.lookup_mem_o _ _ _ hk)
+  obtain ⟨n, h1, h2⟩ := hc.w k hkF
+  rw [hk] at h2
+  cases h2
+  exact_mod_cast h1
+
+/-- **Virtual time and all finish times are 0 whenever the scheduler is empty after the loop's bookkeeping**
+(`C14.wfq_vtime_reset` through the refinement): in every state reachable by kernel steps in which nothing is waiting, handed
+over, in transmission or finished-and-unbooked (read through `absWFQ`), the `vtime` cell holds 0, every `finish_times` cell
+holds 0 and no class is marked active. -/
+theorem kernel_wfq_vtime_reset (N scale F : Nat) (flow size : Int → Nat) (cfg : WfqCfg ℚ) (d1 L : Nat)
+    (arrivals : List (ℚ × Int)) (hc : WFQK.CfgOK F cfg) (hg : WFQK.GridOK scale size F cfg d1 L arrivals)
+    (hw : WFQK.WorkOK N size F flow cfg d1 arrivals) (fuel : Nat) (s : KState ℚ (WfqKSt ℚ))
+    (hreach : KReach (prog F flow size cfg N scale) (fuel + 1) (initState F arrivals) s)
+    (hempty : held' (absWFQ F flow size cfg N s) = []) :
+    cellNum s cVtime = 0 ∧ (∀ k x, lookup (absFinish cfg s) k = some x → x = 0) ∧
+      (∀ c, c < F → cellInt s (cAct c) ≠ 1) := by
+  obtain ⟨acts, h⟩ := wfq_on_kernel_refines_lts N scale F flow size cfg d1 L arrivals hc hg hw fuel s hreach
+  obtain ⟨h1, h2, h3⟩ := C14.wfq_vtime_reset cfg 0 acts _ _ _ h hempty
+  refine ⟨h1, h2, ?_⟩
+  intro c hcF hone
+  have : c ∈ (absWFQ F flow size cfg N s).sch.active := by
+    show c ∈ (List.range F).filter _
+    simp [List.mem_filter, hcF, hone]
+  rw [h3] at this
+  cases this
+
+/-- **Per-flow FIFO and conservation on the kernel** (WFQ; `C12.stamp_flow_fifo_wfq`; packets of positive size). -/
+theorem kernel_wfq_flow_fifo (N scale F : Nat) (flow size : Int → Nat) (cfg : WfqCfg ℚ) (d1 L : Nat)
+    (arrivals : List (ℚ × Int)) (hc : WFQK.CfgOK F cfg) (hg : WFQK.GridOK scale size F cfg d1 L arrivals)
+    (hw : WFQK.WorkOK N size F flow cfg d1 arrivals) (hsz : ∀ id, 0 < size id) (fuel : Nat) (s : KState ℚ (WfqKSt ℚ))
+    (hreach : KReach (prog F flow size cfg N scale) (fuel + 1) (initState F arrivals) s) (f : Nat) :
+    FlowSorted (absWFQ F flow size cfg N s).items ∧
+    ofFlow f (WFQK.putPk size flow (histOf s.trace)) =
+      ofFlow f (WFQK.outPk size flow (histOf s.trace)) ++ ofFlow f (held (absWFQ F flow size cfg N s)) := by
+  obtain ⟨acts, h⟩ := wfq_on_kernel_refines_lts N scale F flow size cfg d1 L arrivals hc hg hw fuel s hreach
+  refine C12.stamp_flow_fifo_wfq cfg (wfq_pos_of_cfgOK hc) 0 acts _ _ _ h ?_ f
+  intro p hp
+  simp only [WFQK.putPk, List.mem_filterMap] at hp
+  obtain ⟨ev, _, hev⟩ := hp
+  cases ev <;> simp at hev
+  subst hev
+  exact hsz _
+
+/-- **The counters are exact on the kernel** (WFQ; `C12.stamp_counters_eq`). -/
+theorem kernel_wfq_counters_eq (N scale F : Nat) (flow size : Int → Nat) (cfg : WfqCfg ℚ) (d1 L : Nat)
+    (arrivals : List (ℚ × Int)) (hc : WFQK.CfgOK F cfg) (hg : WFQK.GridOK scale size F cfg d1 L arrivals)
+    (hw : WFQK.WorkOK N size F flow cfg d1 arrivals) (fuel : Nat) (s : KState ℚ (WfqKSt ℚ))
+    (hreach : KReach (prog F flow size cfg N scale) (fuel + 1) (initState F arrivals) s) (f : Nat) :
+    getD (absWFQ F flow size cfg N s).queueCount f = ((ofFlow f (held (absWFQ F flow size cfg N s))).length : Int) ∧
+    getD (absWFQ F flow size cfg N s).queueBytes f =
+      ((ofFlow f (held (absWFQ F flow size cfg N s))).map fun p => (p.size : Int)).sum := by
+  obtain ⟨acts, h⟩ := wfq_on_kernel_refines_lts N scale F flow size cfg d1 L arrivals hc hg hw fuel s hreach
+  exact C12.stamp_counters_eq (WFQ.sched cfg) WFQ.init0 0 acts _ _ _ h f
+
+/-- **Static-backlog fairness for the LTS image of a kernel state** — *partial*.  What is proved: if the admissible LTS run
+that a reachable kernel state is the image of (`wfq_on_kernel_refines_lts`) has the static-backlog form of
+`C14.static_backlog_fair` (the scheduler empty at `s1`, then all arrivals `ps` before any other action, then no further
+arrival), the normalised service of any two classes still backlogged in `absWFQ s` differs by at most one maximum-size packet
+each.  The gap: with ONE source process on the kernel this form only arises for a single packet — the kernel processes the
+`StorePut` event of the first packet of a burst (the hand-off to the blocked loop) *before* the source's next zero-delay
+timeout, so the second arrival of a burst already follows a hand-off.  The full statement (a burst handed to `put` within one
+burst of a caller, or a backlog built while the server is busy) needs a workload process that calls `put` several times without
+yielding, which this program does not contain. -/
+theorem kernel_wfq_static_backlog_fair_partial (N F : Nat) (flow size : Int → Nat) (cfg : WfqCfg ℚ)
+    (hc : WFQK.CfgOK F cfg) (s : KState ℚ (WfqKSt ℚ))
+    (as1 : List (StAct ℚ)) (s1 : WFQ.WState) (i1 o1 : List SPkt)
+    (h1 : runActs (WFQ.sched cfg) (WFQ.start 0) as1 = .ok (s1, i1, o1)) (hempty : held s1 = [])
+    (Lm : Nat) (ps : List SPkt) (hps : ∀ p ∈ ps, 0 < p.size ∧ p.size ≤ Lm) (as2 : List (StAct ℚ)) (hnp : WFQ.NoPut as2)
+    (ins outs : List SPkt)
+    (h2 : runActs (WFQ.sched cfg) s1 (ps.map .put ++ as2) = .ok (absWFQ F flow size cfg N s, ins, outs))
+    (i j : Nat) (wi wj : ℚ) (hwi : lookup cfg.weights i = some wi) (hwj : lookup cfg.weights j = some wj)
+    (hbi : WFQ.Backlogged cfg (absWFQ F flow size cfg N s) i) (hbj : WFQ.Backlogged cfg (absWFQ F flow size cfg N s) j) :
+    |WFQ.bitsOf cfg i outs / wi - WFQ.bitsOf cfg j outs / wj| ≤ 8 * (Lm : ℚ) / wi + 8 * (Lm : ℚ) / wj :=
+  C14.static_backlog_fair cfg (wfq_pos_of_cfgOK hc) 0 as1 s1 i1 o1 h1 hempty Lm ps hps as2 hnp _ ins outs h2 i j wi wj hwi hwj
+    hbi hbj
+
+/-- **Minimal stamp at every hand-off, on kernel states** (WFQ).  Let `s` be reachable by kernel steps and let the next
+kernel step be one in which the store hands an item over (the abstraction of the state after it has a handed item `it`, the
+one before has none).  Then, read from the `PriorityStore` resource of the kernel state itself: `K` handed out its least
+integer `c`, `it` is the `PriorityItem` that integer stands for, exactly that integer left the store, and **no item in the
+store had a smaller `(finish time, arrival instant)`**. -/
+theorem wfq_on_kernel_decision (N scale F : Nat) (flow size : Int → Nat) (cfg : WfqCfg ℚ) (d1 L : Nat)
+    (arrivals : List (ℚ × Int)) (hc : WFQK.CfgOK F cfg) (hg : WFQK.GridOK scale size F cfg d1 L arrivals)
+    (hw : WFQK.WorkOK N size F flow cfg d1 arrivals) (fuel : Nat) (s s' : KState ℚ (WfqKSt ℚ))
+    (hreach : KReach (prog F flow size cfg N scale) (fuel + 1) (initState F arrivals) s)
+    (hstep : step (prog F flow size cfg N scale) (fuel + 1) s = .ok s') (it : Item ℚ)
+    (hpost : (absWFQ F flow size cfg N s').handed = some it) (hpre : (absWFQ F flow size cfg N s).handed = none) :
+    ∃ c, listMin (s.res pst).items = some c ∧ it = itemOf flow size N s.trace c ∧
+      (s'.res pst).items = (s.res pst).items.erase c ∧
+      ∀ x ∈ (s.res pst).items, it.stamp < (itemOf flow size N s.trace x).stamp ∨
+        (it.stamp = (itemOf flow size N s.trace x).stamp ∧ it.arr ≤ (itemOf flow size N s.trace x).arr) := by
+  obtain ⟨a, _, hi, _⟩ := WFQK.reach_lts (size := size) fuel hc hg hw hreach
+  cases hp : popMin s.agenda with
+  | none => simp [_root_.step, hp] at hstep
+  | some qr =>
+    obtain ⟨q, rest⟩ := qr
+    obtain ⟨s'', a', new, h1, h2, -, h4, -⟩ := WFQK.inv_step_lts (size := size) fuel hi hp
+    rw [h1] at hstep
+    simp only [StepResult.ok.injEq] at hstep
+    subst hstep
+    rw [absWFQ_eq h2.k h2.ai h2.l] at hpost
+    rw [absWFQ_eq hi.k hi.ai hi.l] at hpre
+    have hmin := (WFQK.isMin_of_pop hi.k hp).1
+    have hia := hi.ai.advance hmin
+    have key : ∀ w, WFQK.IsLeast N scale a.items w → a'.items = a.items.erase w → it = WFQK.itemW size flow w →
+        ∃ c, listMin (s.res pst).items = some c ∧ it = itemOf flow size N s.trace c ∧
+          (s''.res pst).items = (s.res pst).items.erase c ∧
+          ∀ x ∈ (s.res pst).items, it.stamp < (itemOf flow size N s.trace x).stamp ∨
+            (it.stamp = (itemOf flow size N s.trace x).stamp ∧ it.arr ≤ (itemOf flow size N s.trace x).arr) := by
+      intro w hw hit hitw
+      have hwp : w ∈ a.puts := hia.sub.subset hw.1
+      have hitem : ∀ x ∈ a.puts, itemOf flow size N s.trace (WFQK.codeOf N scale x) = WFQK.itemW size flow x := fun x hx =>
+        WFQK.itemOf_eq hi.l (WFQK.nodup_of_mono hia.mono) hx (hia.putOK x hx).2.1 (hia.putOK x hx).2.2.1
+      have hst : (s.res pst).items = a.items.map (WFQK.codeOf N scale) := by
+        show (s.res 0).items = _; rw [hi.k.st]; rfl
+      have hst' : (s''.res pst).items = a'.items.map (WFQK.codeOf N scale) := by
+        show (s''.res 0).items = _; rw [h2.k.st]; rfl
+      obtain ⟨pre, post, e1, -, -, hm⟩ := pick_spec _ _ _ _ (WFQK.pick_least (size := size) hia hw)
+      refine ⟨WFQK.codeOf N scale w, by rw [hst]; exact WFQK.listMin_codes hw, by rw [hitw, hitem w hwp], ?_, ?_⟩
+      · rw [hst', hst, hit, WFQK.erase_codes (WFQK.AInv.inj hia hw.1)]
+      · intro x hx
+        rw [hst] at hx
+        obtain ⟨y, hy, rfl⟩ := List.mem_map.mp hx
+        rw [hitem y (hia.sub.subset hy), hitw]
+        exact hm.spec (List.mem_map_of_mem hy)
+    cases h4 with
+    | runInit h0 => simp [WFQK.toM] at hpost
+    | pktResume g w h0 => simp [WFQK.toM] at hpost
+    | sendInit p id h0 => simp [WFQK.toM] at hpost
+    | sendFire p t id h0 => simp [WFQK.toM] at hpost
+    | doneHit p id0 w h0 hw =>
+      simp only [WFQK.toM, Option.some.injEq] at hpost
+      exact key w hw rfl hpost.symm
+    | doneBlock p id0 h0 hit => simp [WFQK.toM] at hpost
+    | srcInit arr h0 => simp only [WFQK.toM] at hpost hpre; rw [hpre] at hpost; cases hpost
+    | srcPut id arr h0 =>
+      simp only [WFQK.toM, WFQK.A.afterPut] at hpost hpre; rw [hpre] at hpost; cases hpost
+    | srcEnd h0 => simp only [WFQK.toM] at hpost hpre; rw [hpre] at hpost; cases hpost
+    | pendNoop l1 l2 hpe hno => simp only [WFQK.toM] at hpost hpre; rw [hpre] at hpost; cases hpost
+    | pendHand g w l1 l2 hpe h0 hw =>
+      simp only [WFQK.toM, Option.some.injEq] at hpost
+      exact key w hw rfl hpost.symm
+
+/-- **Minimal stamp at every hand-off, on the LTS image** (WFQ; `C14.min_stamp_service` for kernel steps). -/
+theorem kernel_wfq_min_stamp (N scale F : Nat) (flow size : Int → Nat) (cfg : WfqCfg ℚ) (d1 L : Nat)
+    (arrivals : List (ℚ × Int)) (hc : WFQK.CfgOK F cfg) (hg : WFQK.GridOK scale size F cfg d1 L arrivals)
+    (hw : WFQK.WorkOK N size F flow cfg d1 arrivals) (fuel : Nat) (s s' : KState ℚ (WfqKSt ℚ))
+    (hreach : KReach (prog F flow size cfg N scale) (fuel + 1) (initState F arrivals) s)
+    (hstep : step (prog F flow size cfg N scale) (fuel + 1) s = .ok s') (it : Item ℚ)
+    (hpost : (absWFQ F flow size cfg N s').handed = some it) (hpre : (absWFQ F flow size cfg N s).handed = none) :
+    it ∈ (absWFQ F flow size cfg N s).items ∧
+    (absWFQ F flow size cfg N s').items.length + 1 = (absWFQ F flow size cfg N s).items.length ∧
+    ∀ x ∈ (absWFQ F flow size cfg N s).items, it.stamp < x.stamp ∨ (it.stamp = x.stamp ∧ it.arr ≤ x.arr) := by
+  obtain ⟨c, h1, h2, h3, h4⟩ :=
+    wfq_on_kernel_decision N scale F flow size cfg d1 L arrivals hc hg hw fuel s s' hreach hstep it hpost hpre
+  have hne : (s.res pst).items ≠ [] := by
+    intro h0; rw [h0] at h1; simp [listMin] at h1
+  obtain ⟨m, hm1, hm2, -⟩ := WFQK.listMin_spec _ hne
+  rw [h1] at hm1
+  cases hm1
+  refine ⟨?_, ?_, ?_⟩
+  · show it ∈ (s.res pst).items.map _
+    rw [h2]; exact List.mem_map_of_mem hm2
+  · show ((s'.res pst).items.map _).length + 1 = ((s.res pst).items.map _).length
+    rw [List.length_map, List.length_map, h3, List.length_erase_of_mem hm2]
+    have : 0 < (s.res pst).items.length := List.length_pos_of_mem hm2
+    omega
+  · intro x hx
+    obtain ⟨y, hy, rfl⟩ := List.mem_map.mp hx
+    exact h4 y hy
+
+/-- **The history of every kernel run passes the WFQ oracle, step by step** (`WFQOnK.orun`, header of the oracle in
+`Net/WFQOnK.lean`): every arrival so far saw virtual time 0 (and all finish times 0) if the scheduler was empty, else
+`V + Δt/Σ weights of the active classes`, and was stamped `max(F_c, V) + 8·size/(rate·w_c)`; every hand-off took a candidate of
+minimal `(stamp, arrival instant)`, the oldest of its flow; every `get` came at instant 0 or in the instant of the last
+departure; every departure came exactly `8·size/rate` after its service start; at the end of every pass of the loop virtual
+time had advanced by `Δt/Σw` (the departed packet's class included) and was reset to 0 with all finish times when nothing
+was waiting. -/
+theorem wfq_on_kernel_history_accepted (N scale F : Nat) (flow size : Int → Nat) (cfg : WfqCfg ℚ) (d1 L : Nat)
+    (arrivals : List (ℚ × Int)) (hc : WFQK.CfgOK F cfg) (hg : WFQK.GridOK scale size F cfg d1 L arrivals)
+    (hw : WFQK.WorkOK N size F flow cfg d1 arrivals) (fuel : Nat) (s : KState ℚ (WfqKSt ℚ))
+    (hreach : KReach (prog F flow size cfg N scale) (fuel + 1) (initState F arrivals) s) :
+    ∃ o, orun F flow size cfg oInit (histOf s.trace) = some o := by
+  obtain ⟨a, hi⟩ := WFQK.reach_inv3 (size := size) fuel hc hg hw hreach
+  obtain ⟨o, ho, -⟩ := hi.o
+  exact ⟨o, ho⟩
+
+/-- **Virtual time, stamp rule, minimal-key service, exact service times, work conservation and drain for the WFQ scheduler
+as kernel processes (direct form, no admissibility assumption).**  For every number of classes `F`, every table of positive
+whole weights over them, every `rate > 0` and every finite workload with non-negative gaps and packets of positive size,
+`run()` of the kernel model on the spawned processes returns (agenda empty, no exception ever leaves `step()`) within
+`6·n + 4` kernel steps; has handed exactly the workload to `put` (`arrivalsFrom`); has a history the oracle accepts
+(`wfq_on_kernel_history_accepted`); and ends drained: nothing waits, nothing is in transmission or unbooked, and for every
+flow the packets handed to `out.put` are exactly those handed to `put`, in the same order. -/
+theorem wfq_on_kernel_stamp_rules (N scale F : Nat) (flow size : Int → Nat) (cfg : WfqCfg ℚ) (d1 L : Nat)
+    (arrivals : List (ℚ × Int)) (hc : WFQK.CfgOK F cfg) (hg : WFQK.GridOK scale size F cfg d1 L arrivals)
+    (hw : WFQK.WorkOK N size F flow cfg d1 arrivals) (hsz : ∀ id, 0 < size id) (fuel n : Nat)
+    (hn : 6 * arrivals.length + 4 ≤ n) :
+    ∃ sF o, runAll (prog F flow size cfg N scale) (fuel + 1) n (initState F arrivals) = .returned .none sF ∧
+      sF.agenda = [] ∧ putsOf sF.trace = arrivalsFrom 0 arrivals ∧
+      orun F flow size cfg oInit (histOf sF.trace) = some o ∧ drained o = true ∧
+      ∀ f, ofFlow f (WFQK.outPk size flow (histOf sF.trace)) = ofFlow f (WFQK.putPk size flow (histOf sF.trace)) := by
+  obtain ⟨sF, aF, h1, h2, h3, h4⟩ := WFQK.run_returns3 fuel (initState F arrivals) n _ _
+    (WFQK.inv3_init (size := size) hc hg hw) (by rw [WFQK.a0_mu]; omega) KReach.init
+  obtain ⟨o, g1, g2, g3, g4⟩ := WFQK.inv3_final h2 h3
+  refine ⟨sF, o, h1, h3, g3, g1, g2, ?_⟩
+  intro f
+  have := (kernel_wfq_flow_fifo N scale F flow size cfg d1 L arrivals hc hg hw hsz fuel sF h4 f).2
+  rw [absWFQ_eq h2.i.k h2.i.ai h2.i.l, g4] at this
+  simpa [ofFlow] using this.symm
+
+/-! ### concrete runs of the kernel model, evaluated by the kernel of Lean (exact arithmetic) -/
+
+/-- classes 0 and 1 with weights 1 and 3 (the `weights` dict lists class 1 first), rate 8 (a packet of size 1 is transmitted in
+one time unit; it adds 1 resp. 1/3 to the finish time of its class) -/
+def wcfg : WfqCfg ℚ := { rate := 8, weights := [(1, 3), (0, 1)], flow2class := [(0, 0), (1, 1)] }
+/-- packet `i` belongs to flow `fl[i]` -/
+def flowOfW (fl : List Nat) : Int → Nat := fun i => fl.getD i.toNat 0
+def unitW : Int → Nat := fun _ => 1
+
+/-- the final state of `run()` within `n` steps (stamps and instants live on the grid `ℤ/12`) -/
+def finalWfq (fl : List Nat) (n : Nat) (arr : List (ℚ × Int)) : Option (KState ℚ (WfqKSt ℚ)) :=
+  finalState (runAll (prog 2 (flowOfW fl) unitW wcfg arr.length 12) 1 n (initState 2 arr))
+
+/-- what a finished run shows: entries left in the agenda, the stamps, whether the oracle of the property accepts the history
+and ends drained -/
+def runWfq (fl : List Nat) (n : Nat) (arr : List (ℚ × Int)) : Option (Nat × List ℚ × Bool) :=
+  (finalWfq fl n arr).map fun s =>
+    (s.agenda.length, stampsOf s.trace, ((orun 2 (flowOfW fl) unitW wcfg oInit (histOf s.trace)).map drained).getD false)
+
+/-- … the service starts and the departures -/
+def runWfqT (fl : List Nat) (n : Nat) (arr : List (ℚ × Int)) : Option (List (Int × ℚ) × List (Int × ℚ)) :=
+  (finalWfq fl n arr).map fun s => (servesOf s.trace, outsOf s.trace)
+
+/-- … the virtual time at every arrival and at the end of every pass of the loop (in the order of the trace), and the final
+`finish_times` -/
+def runWfqV (fl : List Nat) (n : Nat) (arr : List (ℚ × Int)) : Option (List ℚ × List (Nat × ℚ)) :=
+  (finalWfq fl n arr).map fun s => (vtimesOf s.trace, (absWFQ 2 (flowOfW fl) unitW wcfg arr.length s).sch.finish)
+
+/-- packets 0, 1 (class 0: stamps 1, 2) and 2 (class 1: stamp 1/3) arrive at 0, packets 3, 4 (class 1: 2/3, 1) at 1 and 2 —
+exactly when transmissions end —, packet 5 (class 0) at 2.  The first packet is handed over at once; then stamp order: 2
+(1/3), 3 (2/3, arrived at 1 *before* the server asked again at 1), 4 (1), 1 (2), 5 (3); back to back, one time unit each.
+Virtual time advances by 1/4 per time unit while both classes are active, by 1 when only class 0 is, and is back at 0 with
+all finish times when the last packet has left -/
+example : runWfq [0, 0, 1, 1, 1, 0] 80 [(0, 0), (0, 1), (0, 2), (1, 3), (1, 4), (0, 5)] =
+      some (0, [1, 2, 1/3, 2/3, 1, 3], true) ∧
+    runWfqT [0, 0, 1, 1, 1, 0] 80 [(0, 0), (0, 1), (0, 2), (1, 3), (1, 4), (0, 5)] =
+      some ([(0, 0), (2, 1), (3, 2), (4, 3), (1, 4), (5, 5)], [(0, 1), (2, 2), (3, 3), (4, 4), (1, 5), (5, 6)]) ∧
+    runWfqV [0, 0, 1, 1, 1, 0] 80 [(0, 0), (0, 1), (0, 2), (1, 3), (1, 4), (0, 5)] =
+      some ([0, 0, 0, 1/4, 1/4, 1/2, 1/2, 1/2, 3/4, 1, 2, 0], [(1, 0), (0, 0)]) := by
+  decide +kernel
+
+/-- … and every kernel step of that run (39 of them) is an action sequence the StampServer LTS with the WFQ record accepts
+between the abstractions of the two states (`refineCheck` replays the inferred actions through `Stamp.step (WFQ.sched cfg)` and
+compares with `absWFQ`) -/
+example : refineCheck 2 (flowOfW [0, 0, 1, 1, 1, 0]) unitW wcfg 6 12 80
+    (initState 2 [(0, 0), (0, 1), (0, 2), (1, 3), (1, 4), (0, 5)]) 0 = some 39 := by
+  decide +kernel
+
+/-- a busy period that ends and restarts: packets 0 (class 0) and 1 (class 1) arrive at 1, packet 2 (class 0, stamp 2) at 3/2;
+they leave at 2, 3, 4 and the loop resets virtual time and the finish times at 4.  Packet 3 (class 1) arrives at 13/2: virtual
+time 0, and its stamp is 1/3 again — as for packet 1 —, packet 4 (class 0) at 7: virtual time (1/2)/3 = 1/6, stamp 7/6 -/
+example : runWfq [0, 1, 0, 1, 0] 80 [(1, 0), (0, 1), (1/2, 2), (5, 3), (1/2, 4)] = some (0, [1, 1/3, 2, 1/3, 7/6], true) ∧
+    runWfqT [0, 1, 0, 1, 0] 80 [(1, 0), (0, 1), (1/2, 2), (5, 3), (1/2, 4)] =
+      some ([(0, 1), (1, 2), (2, 3), (3, 13/2), (4, 15/2)], [(0, 2), (1, 3), (2, 4), (3, 15/2), (4, 17/2)]) ∧
+    runWfqV [0, 1, 0, 1, 0] 80 [(1, 0), (0, 1), (1/2, 2), (5, 3), (1/2, 4)] =
+      some ([0, 0, 1/8, 1/4, 1/2, 0, 0, 1/6, 7/24, 0], [(1, 0), (0, 0)]) := by
+  decide +kernel
+
+example : refineCheck 2 (flowOfW [0, 1, 0, 1, 0]) unitW wcfg 5 12 80
+    (initState 2 [(1, 0), (0, 1), (1/2, 2), (5, 3), (1/2, 4)]) 0 = some 33 := by
+  decide +kernel
+
+/-- equal stamps, different instants: packet 0 (class 0) is served 0→1; packet 1 (class 0, stamp 2) arrives at 1/4, packets
+2, 3, 4, 5 (class 1) at 2/3, when virtual time is 2/3: stamps 1, 4/3, 5/3, 2.  Packets 1 and 5 carry the stamp 2, the earlier
+arrival (1) goes first -/
+example : runWfq [0, 0, 1, 1, 1, 1] 80 [(0, 0), (1/4, 1), (5/12, 2), (0, 3), (0, 4), (0, 5)] =
+      some (0, [1, 2, 1, 4/3, 5/3, 2], true) ∧
+    runWfqT [0, 0, 1, 1, 1, 1] 80 [(0, 0), (1/4, 1), (5/12, 2), (0, 3), (0, 4), (0, 5)] =
+      some ([(0, 0), (2, 1), (3, 2), (4, 3), (1, 4), (5, 5)], [(0, 1), (2, 2), (3, 3), (4, 4), (1, 5), (5, 6)]) ∧
+    refineCheck 2 (flowOfW [0, 0, 1, 1, 1, 1]) unitW wcfg 6 12 80
+      (initState 2 [(0, 0), (1/4, 1), (5/12, 2), (0, 3), (0, 4), (0, 5)]) 0 = some 39 := by
+  decide +kernel
+
+/-- the oracle is not vacuous.  Packet 0 (class 0) arrives at 0 and is served at once; 1 (class 0, stamp 2) and 2 (class 1,
+stamp 1/2 + 1/3) arrive at 1/2, when virtual time is 1/2.  Serving 2 at 1 is accepted (virtual time 5/8 at 1, 7/8 at 2, reset
+at 3); serving 1 at 1 is rejected (2 has the smaller stamp); a wrong stamp is rejected; a service that starts late is
+rejected; a departure later than `start + 8·size/rate` is rejected; a virtual time that has not advanced at an arrival is
+rejected; a virtual time that is not reset at the end of the busy period is rejected. -/
+example : (orun 2 (flowOfW [0, 0, 1]) unitW wcfg oInit
+      [.get 0, .put 0 0, .vtime 0, .stamp 1, .serve 0 0, .put 1 (1/2), .vtime (1/2), .stamp 2, .put 2 (1/2), .vtime (1/2),
+       .stamp (5/6), .out 0 1, .done (5/8), .get 1, .serve 2 1, .out 2 2, .done (7/8), .get 2, .serve 1 2, .out 1 3, .done 0,
+       .get 3]).isSome = true ∧
+    (orun 2 (flowOfW [0, 0, 1]) unitW wcfg oInit
+      [.get 0, .put 0 0, .vtime 0, .stamp 1, .serve 0 0, .put 1 (1/2), .vtime (1/2), .stamp 2, .put 2 (1/2), .vtime (1/2),
+       .stamp (5/6), .out 0 1, .done (5/8), .get 1, .serve 1 1]).isNone = true ∧
+    (orun 2 (flowOfW [0, 0, 1]) unitW wcfg oInit [.get 0, .put 0 0, .vtime 0, .stamp 2]).isNone = true ∧
+    (orun 2 (flowOfW [0, 0, 1]) unitW wcfg oInit [.get 0, .put 0 0, .vtime 0, .stamp 1, .serve 0 1]).isNone = true ∧
+    (orun 2 (flowOfW [0, 0, 1]) unitW wcfg oInit [.get 0, .put 0 0, .vtime 0, .stamp 1, .serve 0 0, .out 0 2]).isNone = true ∧
+    (orun 2 (flowOfW [0, 0, 1]) unitW wcfg oInit
+      [.get 0, .put 0 0, .vtime 0, .stamp 1, .serve 0 0, .put 1 (1/2), .vtime 0]).isNone = true ∧
+    (orun 2 (flowOfW [0, 0, 1]) unitW wcfg oInit
+      [.get 0, .put 0 0, .vtime 0, .stamp 1, .serve 0 0, .out 0 1, .done 1]).isNone = true := by
+  decide +kernel
+
+
+end WFQ
 
 end C14K
